@@ -113,7 +113,6 @@ mcx_hash_t mcx_hash_state(void)
 /* choice points                                                       */
 
 static struct mcx_choices *cur;
-static struct mcx_choices scratch;
 
 void mcx_choices_begin(struct mcx_choices *c) { cur = c; c->pos = 0; }
 void mcx_choices_end(void) { cur = NULL; }
@@ -382,29 +381,79 @@ struct frame {
         int action, nact, started;
         struct mcx_choices ch;
         mcx_hash_t hash;
-        uint8_t snap[];
+        size_t off, clen;      /* compressed snapshot in the arena */
 };
+
+/* zero-run compression of snapshots: records of (u16 literal count, u16 zero count, literals) */
+static size_t rle_pack(const uint8_t *src, size_t n, uint8_t *dst)
+{
+        size_t i = 0, o = 0;
+        while (i < n) {
+                size_t ls = i;
+                /* literals until a run of >= 4 zeros (or end) */
+                while (i < n && i - ls < 65535) {
+                        if (src[i] == 0) {
+                                size_t z = i;
+                                while (z < n && src[z] == 0 && z - i < 8) z++;
+                                if (z - i >= 4 || z == n) break;
+                        }
+                        i++;
+                }
+                size_t nl = i - ls;
+                size_t zs = i;
+                while (i < n && src[i] == 0 && i - zs < 65535) i++;
+                size_t nz = i - zs;
+                dst[o++] = (uint8_t)(nl & 0xff); dst[o++] = (uint8_t)(nl >> 8);
+                dst[o++] = (uint8_t)(nz & 0xff); dst[o++] = (uint8_t)(nz >> 8);
+                memcpy(dst + o, src + ls, nl);
+                o += nl;
+        }
+        return o;
+}
+
+static void rle_unpack(const uint8_t *src, size_t clen, uint8_t *dst, size_t n)
+{
+        size_t i = 0, o = 0;
+        while (i < clen) {
+                size_t nl = src[i] | ((size_t)src[i + 1] << 8), nz = src[i + 2] | ((size_t)src[i + 3] << 8);
+                i += 4;
+                if (o + nl + nz > n) mcx_fatal("snapshot unpack overflow");
+                memcpy(dst + o, src + i, nl);
+                i += nl; o += nl;
+                memset(dst + o, 0, nz);
+                o += nz;
+        }
+        if (o != n) mcx_fatal("snapshot unpack size mismatch");
+}
 
 int mcx_explore(const struct mcx_model *m, const struct mcx_opts *o, struct mcx_stats *st)
 {
         double t0 = mcx_now();
         memset(st, 0, sizeof *st);
-        uint32_t max_depth = o->max_depth ? o->max_depth : 200000;
+        uint32_t max_depth = o->max_depth ? o->max_depth : 8000000;
         m->init();
         mcx_violation_clear();
         size_t ssz = mcx_state_size();
-        size_t stride = (sizeof(struct frame) + ssz + 15) & ~(size_t)15;
         size_t cap = 1024;
-        uint8_t *stack = malloc(cap * stride);
-        if (!stack) mcx_fatal("oom stack");
+        struct frame *fr = malloc(cap * sizeof *fr);
+        size_t acap = 1 << 20, atop = 0;
+        uint8_t *arena = malloc(acap);
+        uint8_t *scratch = malloc(ssz + 16), *packed = malloc(ssz * 2 + 64);
+        if (!fr || !arena || !scratch || !packed) mcx_fatal("oom stack");
         vt_init(1 << 16);
         int depth = 0;
         int nviol = 0;
 
-#define FRAME(i) ((struct frame *)(stack + (size_t)(i) * stride))
+#define FRAME(i) (&fr[i])
+#define PUSH_SNAP(f) do { \
+                mcx_save(scratch); \
+                size_t _cl = rle_pack(scratch, ssz, packed); \
+                if (atop + _cl > acap) { while (atop + _cl > acap) acap *= 2; arena = realloc(arena, acap); if (!arena) mcx_fatal("oom arena"); } \
+                memcpy(arena + atop, packed, _cl); (f)->off = atop; (f)->clen = _cl; atop += _cl; \
+        } while (0)
         struct frame *f = FRAME(0);
         memset(f, 0, sizeof *f);
-        mcx_save(f->snap);
+        PUSH_SNAP(f);
         f->hash = mcx_hash_state();
         f->nact = m->n_actions();
         vt_insert(f->hash);
@@ -419,16 +468,17 @@ int mcx_explore(const struct mcx_model *m, const struct mcx_opts *o, struct mcx_
                         f->started = 1;
                         f->action = 0;
                         f->ch.len = 0; f->ch.pos = 0;
-                        if (f->nact == 0) { depth--; continue; }
+                        if (f->nact == 0) { depth--; atop = f->off; continue; }
                 } else if (!mcx_choices_next(&f->ch)) {
                         f->action++;
                         f->ch.len = 0; f->ch.pos = 0;
-                        if (f->action >= f->nact) { depth--; continue; }
+                        if (f->action >= f->nact) { depth--; atop = f->off; continue; }
                 }
                 if ((++tick & 0xfff) == 0) {
                         if (o->deadline_s > 0 && mcx_now() - t0 > o->deadline_s) { st->capped = 2; break; }
                 }
-                mcx_restore(f->snap);
+                rle_unpack(arena + f->off, f->clen, scratch, ssz);
+                mcx_restore(scratch);
                 mcx_choices_begin(&f->ch);
                 int r = m->step(f->action);
                 mcx_choices_end();
@@ -479,12 +529,12 @@ int mcx_explore(const struct mcx_model *m, const struct mcx_opts *o, struct mcx_
                 if ((uint32_t)depth >= max_depth) { st->capped = 3; break; }
                 if ((size_t)depth >= cap) {
                         cap *= 2;
-                        stack = realloc(stack, cap * stride);
-                        if (!stack) mcx_fatal("oom stack");
+                        fr = realloc(fr, cap * sizeof *fr);
+                        if (!fr) mcx_fatal("oom stack");
                 }
                 struct frame *nf = FRAME(depth);
                 memset(nf, 0, sizeof *nf);
-                mcx_save(nf->snap);
+                PUSH_SNAP(nf);
                 nf->hash = post;
                 nf->nact = m->n_actions();
                 depth++;
@@ -497,8 +547,7 @@ int mcx_explore(const struct mcx_model *m, const struct mcx_opts *o, struct mcx_
         }
         st->exhaustive = (depth == 0 && st->capped == 0 && nviol == 0);
         st->wall_s = mcx_now() - t0;
-        free(stack);
-        (void)scratch;
+        free(fr); free(arena); free(scratch); free(packed);
         return nviol;
 }
 
